@@ -29,10 +29,14 @@ IsEmptyPt(p) == p.add = << >> /\ p.rem = << >>
 RECURSIVE SortedSeq(_)
 SortedSeq(S) == IF S = {} THEN << >>
                 ELSE LET m == CHOOSE x \in S : \A y \in S : x <= y IN <<m>> \o SortedSeq(S \ {m})
-WithKey(f, k) == IF k \in DOMAIN f THEN f ELSE [x \in DOMAIN f \cup {k} |-> IF x = k THEN EmptyPt ELSE f[x]]
-SetPt(f, k, p) == [x \in DOMAIN f \cup {k} |-> IF x = k THEN p ELSE f[x]]
-DropKey(f, k) == [x \in DOMAIN f \ {k} |-> f[x]]
-DropEmpty(f) == [x \in {k \in DOMAIN f : ~IsEmptyPt(f[k])} |-> f[x]]
+\* Tables are kept as CONCRETE functions: TLC represents [x \in S |-> e] lazily (a closure evaluated on every
+\* application), and closures nested by a loop of table updates made one replace() of 24 matches take minutes.
+\* f @@ g (TLC module, evaluated in Java) yields an explicit function; the left operand wins on shared keys.
+Strict(f) == f @@ << >>
+WithKey(f, k) == IF k \in DOMAIN f THEN f ELSE (k :> EmptyPt) @@ f
+SetPt(f, k, p) == (k :> p) @@ f
+DropKey(f, k) == Strict([x \in DOMAIN f \ {k} |-> f[x]])
+DropEmpty(f) == Strict([x \in {k \in DOMAIN f : ~IsEmptyPt(f[k])} |-> f[x]])
 EmptyTab == [x \in {} |-> EmptyPt]
 
 \* _find_setting_reference: 1-based index of the first element that IS x (same object), 0 if none
@@ -105,12 +109,12 @@ CPApply(t, f, new, start, end, topmost) ==
         \* rem and add), the new settings are restarted too, directly above the restarted ones
         Restarted(p) == {i \in DOMAIN p.add : FindRef(p.add[i], p.rem) # 0}
         f3b == IF ~topmost THEN f3
-               ELSE [k \in DOMAIN f3 |->
+               ELSE Strict([k \in DOMAIN f3 |->
                        IF st < k /\ k < en /\ Restarted(f3[k]) # {}
                        THEN LET p == f3[k]
                                 last == CHOOSE i \in Restarted(p) : \A j \in Restarted(p) : j <= i
                             IN Pt(SubSeq(p.add, 1, last) \o new \o SubSeq(p.add, last + 1, Len(p.add)), p.rem \o new)
-                       ELSE f3[k]]
+                       ELSE f3[k]])
         f4 == WithKey(f3b, en)
         p4 == f4[en]
     IN SetPt(f4, en, Pt(p4.add, IF topmost THEN p4.rem \o new ELSE new \o p4.rem))
@@ -240,8 +244,8 @@ IaLoop(f, g, ks, j, shift, find, repl) ==
 
 \* the incoming settings objects are cloned (fresh identities: id + off), so that objects shared between the operands
 \* (a copy of self, or self) are never mixed up when the seams are merged
-RenameTab(g, off) == [k \in DOMAIN g |-> Pt([i \in DOMAIN g[k].add |-> <<g[k].add[i][1] + off, g[k].add[i][2]>>],
-                                            [i \in DOMAIN g[k].rem |-> <<g[k].rem[i][1] + off, g[k].rem[i][2]>>])]
+RenameTab(g, off) == Strict([k \in DOMAIN g |-> Pt([i \in DOMAIN g[k].add |-> <<g[k].add[i][1] + off, g[k].add[i][2]>>],
+                                                   [i \in DOMAIN g[k].rem |-> <<g[k].rem[i][1] + off, g[k].rem[i][2]>>])])
 MaxInst(f) == LET S == UNION {{f[k].add[i][1] : i \in DOMAIN f[k].add} \cup {f[k].rem[i][1] : i \in DOMAIN f[k].rem} : k \in DOMAIN f}
               IN IF S = {} THEN 0 ELSE CHOOSE x \in S : \A y \in S : y <= x
 CPIAdd(t, f, u, g) ==
@@ -268,8 +272,8 @@ SameTab(f, g) == CanonTab(f) = CanonTab(g)
 
 ---------------------------------------------------------------------------
 \* _shift_settings_idx(num, keep_origin)
-Shift(f, num, keep) == [k \in {(IF keep /\ x = 0 THEN x ELSE x + num) : x \in DOMAIN f} |->
-                          IF keep /\ k = 0 /\ 0 \in DOMAIN f THEN f[0] ELSE f[k - num]]
+Shift(f, num, keep) == Strict([k \in {(IF keep /\ x = 0 THEN x ELSE x + num) : x \in DOMAIN f} |->
+                                 IF keep /\ k = 0 /\ 0 \in DOMAIN f THEN f[0] ELSE f[k - num]])
 MoveKey(f, a, b) == IF a \in DOMAIN f THEN SetPt(DropKey(f, a), b, f[a]) ELSE f
 
 CPPad(t, f, m, width, fill, ext) ==
@@ -287,11 +291,12 @@ CPPad(t, f, m, width, fill, ext) ==
 (* to_str(None, optimize, reset_start, reset_end): the walk over the table *)
 (* and the optimiser, transcribed.  The effect dictionary is an ORDERED    *)
 (* sequence of <<group, tid>> (Python dict semantics: assigning to an      *)
-(* existing key keeps its position; the library files code 10 as an        *)
-(* "apply" code of the font group).                                        *)
+(* existing key keeps its position).  Code 10 (primary font) is the clear   *)
+(* code of the font group, like 22/23/24/39/49 of theirs (the library      *)
+(* filed it as an "apply" code until its commit "fix: SGR 10 ...").        *)
 (***************************************************************************)
 LibGroupOf(tid) == GroupOf(ParamList(TextTable[tid]).ps[1])
-LibIsClear(tid) == ParamList(TextTable[tid]).ps[1] \in (ClearCodes \ {10})
+LibIsClear(tid) == ParamList(TextTable[tid]).ps[1] \in ClearCodes
 LibIsReset(tid) == ParamList(TextTable[tid]).ps[1] = 0
 
 DictHas(d, g) == \E k \in DOMAIN d : d[k][1] = g
@@ -419,7 +424,7 @@ PToDict(sets, i, d) ==
   IF i > Len(sets) THEN d
   ELSE LET ps == sets[i] IN
        IF ps[1] = 0 THEN PToDict(sets, i + 1, << >>)
-       ELSE IF ps[1] \in (ClearCodes \ {10}) THEN PToDict(sets, i + 1, SelectSeq(d, LAMBDA e : e[1] # GroupOf(ps[1])))
+       ELSE IF ps[1] \in ClearCodes THEN PToDict(sets, i + 1, SelectSeq(d, LAMBDA e : e[1] # GroupOf(ps[1])))
        ELSE PToDict(sets, i + 1, PDictSet(d, GroupOf(ps[1]), ps))
 
 TidOfPs(ps) == LET text == JoinDec(ps, 1) IN
@@ -500,8 +505,8 @@ CPFindSettings(t, f, S, start, end, reverse) ==
 (* transcription (so the exhaustive results of CPSystem no longer transfer *)
 (* to it); it is reported as a note, never as a property violation.        *)
 (***************************************************************************)
-TabOf(fl) == [k \in {fl[i][1] : i \in DOMAIN fl} |->
-                LET i == CHOOSE j \in DOMAIN fl : fl[j][1] = k IN Pt(fl[i][2], fl[i][3])]
+TabOf(fl) == Strict([k \in {fl[i][1] : i \in DOMAIN fl} |->
+                       LET i == CHOOSE j \in DOMAIN fl : fl[j][1] = k IN Pt(fl[i][2], fl[i][3])])
 AllInsts(f) == UNION {{f[k].add[i][1] : i \in DOMAIN f[k].add} \cup {f[k].rem[i][1] : i \in DOMAIN f[k].rem} : k \in DOMAIN f}
 HasTab(v) == v.k \in {"S", "A"}
 
@@ -592,7 +597,7 @@ DriftClauses(e, pre, post) ==
              g == CPReplace(v.t, f, e.a.old, u.k, u.t, IF HasTab(u) THEN TabOf(u.f) ELSE EmptyTab, e.a.count)
              matched == Find(v.t, e.a.old, 0, n) >= 0 /\ e.a.count # 0
          IN Cl("drift.replace", matched /\ (f # EmptyTab \/ u.f # << >>), matched => (w.t = g[1] /\ SameTab(TabOf(w.f), g[2])))
-    [] e.op = "reparse" /\ HasResult(e) /\ NoEsc(v.t) /\ InputStrict(v.q) ->
+    [] e.op = "reparse" /\ e.a.opt = 1 /\ HasResult(e) /\ NoEsc(v.t) /\ InputStrict(v.q) ->
          LET w == ResultOf(e, post) g == CPSetAnsiStr(v.q) IN
          Cl("drift.parse", f # EmptyTab, w.t = g[1] /\ SameTab(TabOf(w.f), g[2]))
     [] e.op = "assign_str" /\ HasResult(e) ->
